@@ -154,6 +154,15 @@ def key_array(spec, container="np", index=None, splits=None):
     kind, vals, name = spec["kind"], spec["vals"], spec.get("name")
     if kind == "range":
         return pd.RangeIndex(spec["start"], spec["stop"], spec["step"], name=name)
+    if container == "pa_chunked_dict":
+        # a chunked dictionary-typed key whose chunks were encoded independently (e.g. row groups of a parquet file):
+        # every chunk carries its own dictionary
+        import pyarrow as pa
+
+        typ = {"int": pa.int64(), "float": pa.float64(), "str": pa.string()}[kind]
+        n = len(vals)
+        bounds = [0, *sorted({s for s in (splits or []) if 0 < s < n}), n]
+        return pa.chunked_array([pa.array(vals[a:b], type=typ).dictionary_encode() for a, b in zip(bounds, bounds[1:])])
     if container == "pa_dict":
         # a user-built dictionary array with unsigned indices (nulls as null indices)
         import pyarrow as pa
@@ -193,7 +202,7 @@ def key_array(spec, container="np", index=None, splits=None):
     return pour(base, container, index=index, name=name, splits=splits)
 
 
-ARROW_FAMILY = ("pl", "pa", "pa_chunked", "pd_arrow", "pd_arrow_chunked", "pa_dict")
+ARROW_FAMILY = ("pl", "pa", "pa_chunked", "pd_arrow", "pd_arrow_chunked", "pa_dict", "pa_chunked_dict")
 
 
 def pour_arrow(pa_arr, container, index=None, name=None, splits=None):
@@ -281,7 +290,12 @@ def gen_vals(rng, n, dtype=None, null_mode=None, magnitude=None, name=None):
     elif dt.kind in "iu":
         info = np.iinfo(dt)
         magnitude = magnitude or pick(rng, ["small", "small", "edge", "big"])
-        if magnitude == "small":
+        if magnitude == "mid" and dt.itemsize >= 4:
+            lo, hi = (0 if dt.kind == "u" else -200_000_000), 200_000_000
+            vals = [int(x) for x in rng.integers(lo, hi, size=n)]
+        elif magnitude == "mid":
+            vals = [int(x) for x in rng.integers(info.min, info.max, size=n, endpoint=True)]
+        elif magnitude == "small":
             lo, hi = max(info.min, -9), min(info.max, 9)
             vals = [int(x) for x in rng.integers(lo, hi + 1, size=n)]
         elif magnitude == "edge":
